@@ -345,8 +345,40 @@ class NpProxy(types.ModuleType):
     def __init__(self):
         super().__init__('numpy_symproxy')
 
+    # constructors / combinators whose result the traced code may later assign symbolic values into: their
+    # numeric result is turned into an object array of symbolic constants (same values, same shape)
+    _SYMBOLIZE = ('tile', 'full', 'full_like', 'ones_like', 'hstack', 'vstack', 'dstack', 'concatenate', 'stack',
+                  'column_stack', 'copy', 'repeat', 'broadcast_to', 'block', 'append', 'insert', 'roll', 'flip',
+                  'transpose', 'swapaxes', 'moveaxis', 'reshape', 'squeeze', 'expand_dims', 'ravel', 'triu', 'tril',
+                  'outer', 'kron', 'where', 'matmul', 'multiply', 'add', 'subtract', 'divide', 'negative', 'einsum',
+                  'tensordot', 'inner', 'trace', 'diagonal', 'cumsum', 'diff', 'mean')
+
     def __getattr__(self, name):
-        return getattr(_np, name)
+        f = getattr(_np, name)
+        if name in self._SYMBOLIZE and callable(f):
+            def wrapped(*a, **k):
+                r = f(*a, **k)
+                if isinstance(r, _np.ndarray) and r.dtype != object and r.dtype.kind in 'fiu' and CTX is not None:
+                    return _obj(r)
+                return r
+            wrapped.__name__ = name
+            return wrapped
+        return f
+
+    def square(self, a):
+        a = _as_sym_array(a, False)
+        return a * a
+
+    def reciprocal(self, a):
+        return 1.0 / _as_sym_array(a, False)
+
+    def sqrt(self, a):
+        a = _as_sym_array(a, False)
+        return a ** 0.5 if isinstance(a, Sym) else _np.sqrt(a)
+
+    def abs(self, a):
+        a = _as_sym_array(a, False)
+        return abs(a)
 
     # constructors
     def zeros(self, shape, dtype=None): return _fill(shape, 0.0)
